@@ -1131,6 +1131,18 @@ func (s *Sim) afterBlock() {
 		s.resyncFromExport(pause)
 		s.resyncPause = false
 	}
+	if s.ModeB != nil && s.ModeB.Plan.Store && len(s.ModeB.Plan.Fired) > 0 && !s.statsTainted {
+		// an injected failure of the orbiter's own store fired in this block: when it hit a statistics write after
+		// the bridge request the transfer stands and its statistics may be lost (sim.go, storeFaultPass)
+		f := s.ModeB.Plan.Fired[0]
+		for _, c := range s.ModeB.Plan.Calls[:f] {
+			if isBridgeSite(c.Site) && strings.HasPrefix(s.ModeB.Plan.Calls[f].Site, "store.") {
+				s.statsTainted = true
+				s.Stats.Probe("statistics_write_failed_in_history")
+				break
+			}
+		}
+	}
 	if s.Model.Unrepresentable && !s.statsTainted {
 		s.statsTainted = true
 		s.Stats.Probe("statistics_total_beyond_256_bits")
